@@ -12,6 +12,7 @@ g = gencases.generate(streams, 0, seed)
 lines = g.lines
 import time
 t=time.time(); cpp, rc, err = run_ops(h, '\n'.join(lines)+'\n'); t1=time.time()-t
+cpp, steps = split_steps(cpp)
 t=time.time(); lean, lrc, lerr = run_ops(lean_driver(), '\n'.join(lines)+'\n'); t2=time.time()-t
 print('lines', len(lines), 'cpp', len(cpp), 'rc', rc, '%.1fs'%t1, 'lean', len(lean), lrc, '%.1fs'%t2)
 if rc != 0: print(err[-3000:])
